@@ -136,6 +136,11 @@ def plan(rng, thorough, stats):
     for n in ([] if thorough else [11, 24, 40]):
         pos = rng.randrange(n)
         bs.append(make_batch(rng, n, rng.randint(1, 4), stats, fail_at=pos, fail_kind=rng.choice(FAIL_KINDS), what="failing@%d" % pos))
+    # the enqueuing thread preempted between handing the job to the queue and returning (master/workers already running)
+    for n, nw in ((1, 1), (3, 2)):
+        b = make_batch(rng, n, nw, stats, what="slow-enqueuer")
+        b.update({"start": "before", "slow_enqueue": 0.7, "delays": [0.0] * n, "timeout_s": 12.0})
+        bs.append(b)
     # rejected configurations and a payload whose truth value is False
     for kind in ("pipeline", "tuple", "yaml_missing"):
         for n, pos in ((1, 0), (3, 1)) + (((7, 6), (12, 0)) if thorough else ()):
